@@ -165,4 +165,283 @@ def _as_future(ex, state, args):
 
 
 def extra_checks(tier, seed):
-    return []
+    if tier != "thorough":
+        return []
+    from pyvc import replaylib as R
+    return [R.native_crosscheck("C04/bounded/%s" % api, _HARNESS % {"api": api},
+                                "every option of the API absent / falsy / typical x ids at both ends of the range x every "
+                                "send failure, on the real session over a recording transport")
+            for api in ("publish", "call", "subscribe", "register", "_unsubscribe", "_unregister", "RESULT")]
+
+
+# ------------------------------------------------------------------------------------------ replay on the real code
+_HARNESS = r'''
+import json, sys, itertools
+import txaio; txaio.use_asyncio()
+from autobahn.wamp.protocol import ApplicationSession
+from autobahn.wamp import message, role, types
+from autobahn.wamp.exception import SerializationError, TransportLost
+from autobahn.wamp.request import Subscription, Registration, Handler, Endpoint
+from autobahn.exception import PayloadExceededError
+
+API = %(api)r
+class T:
+    def __init__(s): s.fail = None; s.sent = []
+    def send(s, m):
+        if s.fail: raise s.fail
+        s.sent.append(m)
+    def is_open(s): return True
+    def close(s): pass
+    transport_details = None
+
+def fresh(next_id=0):
+    s = ApplicationSession(); t = T(); s.onOpen(t)
+    s.onMessage(message.Welcome(1234, {"broker": role.RoleBrokerFeatures(), "dealer": role.RoleDealerFeatures()}))
+    s._request_id_gen._next = next_id
+    return s, t
+
+TABLES = ["_publish_reqs", "_subscribe_reqs", "_unsubscribe_reqs", "_register_reqs", "_unregister_reqs", "_call_reqs"]
+def snap(s): return {t: dict(getattr(s, t)) for t in TABLES}
+bad, cases = [], 0
+def chk(cond, what, case):
+    if not cond and len(bad) < 6: bad.append({"what": what, "case": case})
+
+def as_list(v): return v if type(v) == list else [v]
+PUB_LISTS = ["exclude", "exclude_authid", "exclude_authrole", "eligible", "eligible_authid", "eligible_authrole"]
+def pub_opts():
+    yield None, {}
+    base = [{}, {"acknowledge": True}, {"acknowledge": False}, {"exclude_me": False}, {"exclude_me": True}, {"retain": False},
+            {"retain": True}, {"transaction_hash": ""}, {"transaction_hash": "abc"}, {"forward_for": []},
+            {"correlation_id": "c1", "correlation_uri": "a.b", "correlation_is_anchor": False, "correlation_is_last": False}]
+    for f in PUB_LISTS:
+        vals = ([[], [7], [7, 8], 7, 0] if f in ("exclude", "eligible") else [[], ["x"], ["x", "y"], "x"])
+        base += [{f: v} for v in vals]
+    for b in base:
+        yield types.PublishOptions(**b), b
+        if "acknowledge" not in b:
+            b2 = dict(b, acknowledge=True); yield types.PublishOptions(**b2), b2
+
+def wire_opts(msg):
+    return msg.marshal()[2]
+
+def expect_pub(b):
+    e = {}
+    for k, v in b.items():
+        if k.startswith("correlation"): continue
+        if v is None: continue
+        e[k] = as_list(v) if k in PUB_LISTS else v
+    return e
+
+def run_publish():
+    global cases
+    for opts, b in pub_opts():
+        for start in (0, 41, 2**53 - 2):
+            for fail in (None, SerializationError("x"), PayloadExceededError("x"), TransportLost("x")):
+                s, t = fresh(start); t.fail = fail; before = snap(s); cases += 1
+                case = {"options": repr(b), "start": start, "fail": repr(fail)}
+                args, kw = (1, "a"), {"k": [1]}
+                try:
+                    r = s.publish("com.x.t", *args, options=opts, **kw) if opts is not None else s.publish("com.x.t", *args, **kw)
+                except Exception as e:
+                    chk(fail is not None and type(e) is type(fail), "unexpected exception %%r" %% (e,), case)
+                    chk(not t.sent and snap(s) == before, "a refused publish left a record or sent something", case)
+                    continue
+                chk(fail is None, "send failed but publish returned", case)
+                chk(len(t.sent) == 1 and isinstance(t.sent[0], message.Publish), "not exactly one PUBLISH", case)
+                if len(t.sent) != 1: continue
+                m = t.sent[0]
+                chk(m.request == start + 1 and 1 <= m.request <= 2**53, "request id not the next fresh id", case)
+                chk(m.topic == "com.x.t" and list(m.args) == list(args) and m.kwargs == kw, "topic/args/kwargs not faithful", case)
+                chk(wire_opts(m) == expect_pub(b), "options on wire %%r != given %%r" %% (wire_opts(m), expect_pub(b)), case)
+                for c in ("correlation_id", "correlation_uri", "correlation_is_anchor", "correlation_is_last"):
+                    if b.get(c) is not None: chk(getattr(m, c) == b[c], c + " not copied", case)
+                ack = bool(b.get("acknowledge"))
+                if ack:
+                    chk(m.request in s._publish_reqs and s._publish_reqs[m.request].on_reply is r and not r.done(), "acknowledged publish not recorded with its pending result", case)
+                else:
+                    chk(r is None and snap(s) == before, "unacknowledged publish recorded / returned something", case)
+                after = snap(s)
+                for tn in TABLES:
+                    for k in before[tn]: chk(after[tn].get(k) is before[tn][k], "another pending request disturbed", case)
+
+def call_opts():
+    yield None, {}
+    for b in [{}, {"timeout": 1}, {"timeout": 10}, {"on_progress": (lambda *a, **k: None)}, {"transaction_hash": ""},
+              {"transaction_hash": "h"}, {"caller": 0}, {"caller": 5, "caller_authid": "", "caller_authrole": ""},
+              {"caller": 5, "caller_authid": "u", "caller_authrole": "r"}, {"forward_for": []},
+              {"correlation_id": "c1", "correlation_uri": "a.b", "correlation_is_anchor": False, "correlation_is_last": False}]:
+        yield types.CallOptions(**b), b
+
+def expect_call(b):
+    e = {}
+    for k, v in b.items():
+        if k.startswith("correlation") or v is None: continue
+        if k == "on_progress": e["receive_progress"] = True
+        else: e[k] = v
+    return e
+
+def run_call():
+    global cases
+    for opts, b in call_opts():
+        for start in (0, 41, 2**53 - 2):
+            for fail in (None, SerializationError("x"), PayloadExceededError("x"), TransportLost("x")):
+                s, t = fresh(start); t.fail = fail; before = snap(s); cases += 1
+                case = {"options": repr(sorted(b)), "start": start, "fail": repr(fail)}
+                args, kw = (1, "a"), {"k": [1]}
+                try:
+                    r = s.call("com.x.p", *args, options=opts, **kw) if opts is not None else s.call("com.x.p", *args, **kw)
+                except Exception as e:
+                    chk(fail is not None and type(e) is type(fail), "unexpected exception %%r" %% (e,), case)
+                    chk(not t.sent and snap(s) == before, "a refused call left a record or sent something", case)
+                    continue
+                chk(fail is None, "send failed but call returned", case)
+                chk(len(t.sent) == 1 and isinstance(t.sent[0], message.Call), "not exactly one CALL", case)
+                if len(t.sent) != 1: continue
+                m = t.sent[0]
+                chk(m.request == start + 1, "request id not the next fresh id", case)
+                chk(m.procedure == "com.x.p" and list(m.args) == list(args) and m.kwargs == kw, "procedure/args/kwargs not faithful", case)
+                chk(wire_opts(m) == expect_call(b), "options on wire %%r != given %%r" %% (wire_opts(m), expect_call(b)), case)
+                chk(m.request in s._call_reqs and s._call_reqs[m.request].on_reply is r and not r.done() and
+                    s._call_reqs[m.request].request_id == m.request, "call not recorded with its pending result", case)
+                chk(s._call_reqs[m.request].options is opts, "call request does not keep its options (on_progress)", case)
+
+def sub_opts():
+    yield None, {}
+    for b in [{}, {"match": "exact"}, {"match": "prefix"}, {"match": "wildcard"}, {"get_retained": False}, {"get_retained": True},
+              {"forward_for": []}, {"details_arg": "d"}, {"details": True},
+              {"correlation_id": "c1", "correlation_uri": "a.b", "correlation_is_anchor": False, "correlation_is_last": False}]:
+        yield types.SubscribeOptions(**b), b
+
+def reg_opts():
+    yield None, {}
+    for b in [{}, {"match": "exact"}, {"match": "prefix"}, {"invoke": "single"}, {"invoke": "roundrobin"}, {"concurrency": 1},
+              {"force_reregister": False}, {"force_reregister": True}, {"forward_for": []}, {"details_arg": "d"},
+              {"correlation_id": "c1", "correlation_uri": "a.b", "correlation_is_anchor": False, "correlation_is_last": False}]:
+        yield types.RegisterOptions(**b), b
+
+def expect_plain(b, drop=("details", "details_arg")):
+    return {k: v for k, v in b.items() if not k.startswith("correlation") and v is not None and k not in drop}
+
+def run_subreg(kind):
+    global cases
+    for opts, b in (sub_opts() if kind == "subscribe" else reg_opts()):
+        for start in (0, 41, 2**53 - 2):
+            for fail in (None, SerializationError("x"), PayloadExceededError("x"), TransportLost("x")):
+                s, t = fresh(start); t.fail = fail; before = snap(s); cases += 1
+                case = {"api": kind, "options": repr(b), "start": start, "fail": repr(fail)}
+                fn = lambda *a, **k: None
+                tab = s._subscribe_reqs if kind == "subscribe" else s._register_reqs
+                try:
+                    r = s.subscribe(fn, "com.x.t", options=opts) if kind == "subscribe" else s.register(fn, "com.x.t", options=opts)
+                except Exception as e:
+                    chk(fail is not None and type(e) is type(fail), "unexpected exception %%r" %% (e,), case)
+                    chk(not t.sent and snap(s) == before, "a refused %%s left a record or sent something" %% kind, case)
+                    continue
+                cls = message.Subscribe if kind == "subscribe" else message.Register
+                chk(fail is None, "send failed but the call returned", case)
+                chk(len(t.sent) == 1 and isinstance(t.sent[0], cls), "not exactly one request message", case)
+                if len(t.sent) != 1: continue
+                m = t.sent[0]
+                chk(m.request == start + 1, "request id not the next fresh id", case)
+                chk((m.topic if kind == "subscribe" else m.procedure) == "com.x.t", "URI not faithful", case)
+                ref = cls(1, "com.x.t")       # the same message without any option: what an absent option must look like
+                for k in (("match", "get_retained", "forward_for") if kind == "subscribe" else
+                          ("match", "invoke", "concurrency", "force_reregister", "forward_for")):
+                    want = b[k] if b.get(k) is not None else getattr(ref, k)
+                    chk(getattr(m, k) == want, "option %%s on the message %%r != given %%r" %% (k, getattr(m, k), want), case)
+                chk(m.request in tab and tab[m.request].on_reply is r and not r.done() and tab[m.request].request_id == m.request,
+                    "request not recorded with its pending result", case)
+                h = tab[m.request].handler if kind == "subscribe" else tab[m.request].endpoint
+                chk(h.fn is fn and h.details_arg == (opts.details_arg if opts is not None else None), "handler / details_arg not recorded", case)
+
+def run_unsub():
+    global cases
+    for n in (1, 2, 3):
+        for which in range(n):
+            for start in (0, 41):
+                for fail in (None, SerializationError("x"), TransportLost("x")):
+                    s, t = fresh(start); cases += 1
+                    subs = [Subscription(77, "a.b", s, Handler(lambda: 1)) for _ in range(n)]
+                    s._subscriptions[77] = list(subs); s._subscriptions[78] = [Subscription(78, "a.c", s, Handler(lambda: 1))]
+                    t.fail = fail; before = snap(s)
+                    case = {"api": "_unsubscribe", "handlers": n, "which": which, "fail": repr(fail)}
+                    try:
+                        r = s._unsubscribe(subs[which])
+                    except Exception as e:
+                        chk(fail is not None and n == 1 and type(e) is type(fail), "unexpected exception %%r" %% (e,), case)
+                        chk(not t.sent and snap(s) == before, "a refused UNSUBSCRIBE left a record", case)
+                        continue
+                    chk(not subs[which].active and subs[which] not in s._subscriptions[77] and len(s._subscriptions[77]) == n - 1, "handler not removed", case)
+                    chk(len(s._subscriptions[78]) == 1, "another subscription disturbed", case)
+                    if n == 1:
+                        chk(fail is None and len(t.sent) == 1 and isinstance(t.sent[0], message.Unsubscribe) and t.sent[0].request == start + 1
+                            and t.sent[0].subscription == 77, "no UNSUBSCRIBE with the fresh id for the last handler", case)
+                        if len(t.sent) == 1:
+                            q = s._unsubscribe_reqs.get(t.sent[0].request)
+                            chk(q is not None and q.on_reply is r and q.subscription_id == 77 and not r.done(), "UNSUBSCRIBE not recorded", case)
+                    else:
+                        chk(not t.sent and snap(s) == before, "UNSUBSCRIBE sent although handlers remain", case)
+
+def run_unreg():
+    global cases
+    for start in (0, 41, 2**53 - 2):
+        for fail in (None, SerializationError("x"), PayloadExceededError("x"), TransportLost("x")):
+            s, t = fresh(start); cases += 1
+            reg = Registration(s, 9, "a.b", Endpoint(lambda: 1)); s._registrations[9] = reg
+            t.fail = fail; before = snap(s); case = {"api": "_unregister", "start": start, "fail": repr(fail)}
+            try:
+                r = s._unregister(reg)
+            except Exception as e:
+                chk(fail is not None and type(e) is type(fail), "unexpected exception %%r" %% (e,), case)
+                chk(not t.sent and snap(s) == before, "a refused UNREGISTER left a record", case)
+                continue
+            chk(fail is None and len(t.sent) == 1 and isinstance(t.sent[0], message.Unregister) and t.sent[0].request == start + 1 and
+                t.sent[0].registration == 9, "not exactly one UNREGISTER with the fresh id", case)
+            q = s._unregister_reqs.get(start + 1)
+            chk(q is not None and q.on_reply is r and q.registration_id == 9 and not r.done(), "UNREGISTER not recorded", case)
+
+def run_result():
+    global cases
+    for opts in (None, types.CallOptions(), types.CallOptions(on_progress=lambda *a, **k: seen.append(a)), types.CallOptions(details=True)):
+        for prog_first in (False, True):
+            s, t = fresh(0); s._session_id = 1234; seen = []; cases += 1
+            f = s.call("com.x.p", 1, options=opts) if opts is not None else s.call("com.x.p", 1)
+            g = s.call("com.x.q", 2)
+            rid = t.sent[0].request
+            case = {"api": "RESULT", "options": repr(opts), "progressive_first": prog_first}
+            try:
+                if prog_first:
+                    s.onMessage(message.Result(rid, args=[7], progress=True))
+                    chk(not f.done() and not g.done() and rid in s._call_reqs, "a progressive result completed a call", case)
+                s.onMessage(message.Result(rid, args=[8]))
+            except Exception as e:
+                chk(False, "RESULT for a pending call raised %%r" %% (e,), case); continue
+            chk(f.done() and not g.done() and rid not in s._call_reqs and t.sent[1].request in s._call_reqs, "terminal result did not complete exactly its own call", case)
+
+{"RESULT": run_result, "publish": run_publish, "call": run_call, "subscribe": lambda: run_subreg("subscribe"), "register": lambda: run_subreg("register"),
+ "_unsubscribe": run_unsub, "_unregister": run_unreg}[API]()
+print(json.dumps({"bad": bad, "cases": cases}))
+'''
+
+
+def _api_of(unit):
+    for api in ("_unsubscribe", "_unregister", "publish", "call", "subscribe", "register"):
+        if ("." + api + "[") in unit or ("." + api + "/") in unit or unit.endswith("." + api):
+            return api
+    return None
+
+
+def replay(o):
+    """request-issuing units: the real session over a recording / refusing transport, driven through every option of the
+    API (absent, falsy and typical values), ids at the start, middle and end of the range, and every send failure; the
+    property is checked directly (one message, fresh id, options on the wire equal the options given, record kept or
+    removed).  A counterexample of the verifier only selects the API; the harness finds the concrete failing call."""
+    from pyvc import replaylib as R
+    unit = o.get("unit") or o.get("name", "")
+    api = "RESULT" if "onMessage<Result>" in unit else _api_of(unit)
+    if api is None or "[transport lost]" in unit:
+        return {"reproduced": False, "detail": "no replay harness for this unit"}
+    out = R.run_py(_HARNESS % {"api": api}, timeout=300)
+    bad = out.get("bad") if isinstance(out, dict) else None
+    return {"reproduced": bool(bad), "cases": (bad or [])[:4], "observed": out if not bad else {"cases": out.get("cases")},
+            "detail": "boundary-case run of the real %s() over a recording transport" % api}
